@@ -214,6 +214,15 @@ class Tr:
             return ("none", opt(NAT))
         return None
 
+    def named_const(self, n, cv):
+        """a module-level bytes / frozenset constant becomes a named Lean definition (emitted once)"""
+        name = f"C_{n}"
+        self.consts = getattr(self, "consts", {})
+        if name not in self.consts:
+            ty = "List UInt8" if cv[1] == BYTES else "List Nat"
+            self.consts[name] = f"/-- module constant `{n}` (value by reflection) -/\ndef {name} : {ty} := {cv[0]}"
+        return name
+
     def fresh(self, base="t"):
         self.tmp += 1
         return f"{base}{self.tmp}"
@@ -336,9 +345,48 @@ class Tr:
             return ("obj", self.union_of[parts[0]])
         return None
 
+    def emit_dispatch(self, fs: FnSpec):
+        """`frame.from_bytes(data)` for a class value / `frame.to_bytes()` for an instance: dispatch over the union"""
+        u, m = fs.qual.split(":")[1:]
+        ctors = self.union_fields[u]
+        lines = []
+        if m == "from_bytes":
+            lines.append(f"/-- `cls.from_bytes(data)` for a class held in a variable -/")
+            lines.append(f"def {u}Cls.from_bytes : {u}Cls → List UInt8 → Except PyErr {u}")
+            for c, _ in ctors:
+                key = self.find_sig_static(c, m)
+                lines.append(f"  | .{c}, d => {self.sigs[key][0]} d")
+        elif m == "to_bytes":
+            lines.append(f"/-- `frame.to_bytes()` for an instance of any of the classes (keyword-only parameters at their defaults) -/")
+            lines.append(f"def {u}.to_bytes : {u} → Except PyErr (List UInt8)")
+            for c, fs_ in ctors:
+                key = self.find_sig_static(c, m)
+                lname, params, ret, monad, kind = self.sigs[key]
+                extra = ""
+                node = self.find_def(key[0]) or self.find_def(self.resolve_alias(key[0]) or "")
+                for (pn, pt), d in zip(params, [x for x in node.args.kw_defaults] if node.args.kwonlyargs else []):
+                    if isinstance(d, ast.Constant) and isinstance(d.value, bool):
+                        extra += " true" if d.value else " false"
+                    else:
+                        raise Unsupported(f"{fs.qual}: parameter {pn} of {c}.to_bytes")
+                names = " ".join(ident(f) for f in fs_)
+                lines.append(f"  | .{c} {names} => {lname} {names}{extra}".replace("  =>", " =>"))
+        else:
+            raise Unsupported(fs.qual)
+        self.out.append("\n".join(lines))
+
+    def find_sig_static(self, owner, m):
+        for (q, b) in self.sigs:
+            if b == owner and q.endswith("." + m):
+                return (q, b)
+        raise Unsupported(f"no translation of {owner}.{m}")
+
     def translate_all(self):
         self.emit_unions()
         for fs in self.spec.fns:
+            if fs.qual.startswith("dispatch:"):
+                self.emit_dispatch(fs)
+                continue
             try:
                 self.translate_fn(fs)
                 self.report["translated"].append(fs.qual + (f"[{fs.bind_cls}]" if fs.bind_cls else ""))
@@ -354,7 +402,8 @@ class Tr:
         head += f"namespace {sp.ns}\n"
         head += "".join(f"open {o}\n" for o in sp.opens)
         head += "\n"
-        return head + sp.preamble + "\n\n".join(self.out) + f"\n\nend {sp.ns}\n"
+        consts = "\n\n".join(getattr(self, "consts", {}).values())
+        return head + sp.preamble + consts + ("\n\n" if consts else "") + "\n\n".join(self.out) + f"\n\nend {sp.ns}\n"
 
     def lean_fn_name(self, fs: FnSpec):
         if fs.lean_name:
@@ -469,7 +518,7 @@ class Fn:
             # `self` is the dataclass instance: bind its fields as parameters self_<f>
             ctor = [c for c in tr.union_fields[tr.union_of[self.owner]] if c[0] == self.owner][0]
             self.self_fields = ctor[1]
-        tr.sigs[(fs.qual, fs.bind_cls)] = (self.name, params, ret, self.monad)
+        tr.sigs[(fs.qual, fs.bind_cls)] = (self.name, params, ret, self.monad, self.kind)
         body = list(node.body)
         lines, ft = self.block(body, dict(env), {"kind": "fn"}, [])
         plist = ""
@@ -662,9 +711,11 @@ class Fn:
                 L.append(f"pure (Ctl.next {self.tuple_term(tail['carried'])})")
                 return L, False
             if isinstance(s, ast.Assert):
-                c = self.cond(s.test, env, L)
-                L.append(f"if !{paren(c)} then {self.throw_cls('AssertionError')} else")
-                i += 1
+                s2 = ast.If(test=ast.UnaryOp(op=ast.Not(), operand=s.test),
+                            body=[ast.Raise(exc=ast.Name(id="AssertionError", ctx=ast.Load()), cause=None)], orelse=[])
+                ast.copy_location(s2, s)
+                ast.fix_missing_locations(s2)
+                stmts = stmts[:i] + [s2] + stmts[i + 1:]
                 continue
             if isinstance(s, (ast.Assign, ast.AugAssign, ast.AnnAssign)):
                 self.assign(s, env, L)
@@ -764,10 +815,13 @@ class Fn:
         name = None
         if isinstance(e, ast.Call) and isinstance(e.func, ast.Name):
             name = e.func.id
-            for a in e.args:
+            for a in list(e.args) + [k.value for k in e.keywords]:
                 for n in ast.walk(a):
-                    if isinstance(n, ast.Call):
+                    # the message may be built from names, slices and .hex() only: nothing that can raise itself
+                    if isinstance(n, ast.Call) and not (isinstance(n.func, ast.Attribute) and n.func.attr == "hex" and not n.args):
                         raise Unsupported(f"{self.fs.qual}: call inside exception arguments")
+                    if isinstance(n, ast.Subscript) and not isinstance(n.slice, ast.Slice):
+                        raise Unsupported(f"{self.fs.qual}: index inside exception arguments")
         elif isinstance(e, ast.Name):
             name = e.id
         if name is None:
@@ -1066,6 +1120,8 @@ class Fn:
                 return f"{u}Cls.{n}", ("cls", f"{u}Cls")
             cv = tr.const_value(n)
             if cv is not None:
+                if cv[1] in (BYTES, ("list", NAT)):
+                    return tr.named_const(n, cv), cv[1]
                 return cv
             raise Unsupported(f"{self.fs.qual}: name {n}")
         if isinstance(node, ast.UnaryOp):
@@ -1381,6 +1437,26 @@ class Fn:
             raise Unsupported(f"{self.fs.qual}: call of {n}")
         if isinstance(f, ast.Attribute):
             m = f.attr
+            # conversion to an int enum of the repository (t.NcpResetCode(x)): probed by reflection over every byte value;
+            # a total conversion is the identity on the number
+            if self.is_const_chain(f) and len(node.args) == 1 and not node.keywords:
+                try:
+                    obj = eval(src, vars(tr.mod))  # noqa: S307
+                except Exception:
+                    obj = None
+                if isinstance(obj, type) and issubclass(obj, enum.Enum) and issubclass(obj, int):
+                    for v in range(256):
+                        try:
+                            if int(obj(v)) != v:
+                                raise Unsupported(f"{self.fs.qual}: {src}({v}) is not {v}")
+                        except Unsupported:
+                            raise
+                        except Exception:
+                            raise Unsupported(f"{self.fs.qual}: {src}({v}) raises")
+                    a, at = self.ex(node.args[0], env, L)
+                    if at != NAT:
+                        raise Unsupported(f"{self.fs.qual}: {src} of {at}")
+                    return a, NAT
             # binascii.crc_hqx(data, seed)
             if src == "binascii.crc_hqx" and len(node.args) == 2:
                 a, at = self.ex(node.args[0], env, L)
@@ -1455,7 +1531,9 @@ class Fn:
 
     def call_translated(self, key, node, env, L, selfargs):
         tr = self.tr
-        lname, params, ret, monad = tr.sigs[key]
+        lname, params, ret, monad, ckind = tr.sigs[key]
+        if ckind != 'method':
+            selfargs = []
         pos = list(node.args)
         kws = {k.arg: k.value for k in node.keywords}
         args = []
@@ -1535,6 +1613,8 @@ def ash_spec() -> ModSpec:
         fns.append(FnSpec(f"{c}.from_bytes", bind_cls=c, ret=("obj", "Frame")))
         fns.append(FnSpec(f"{c}.to_bytes", bind_cls=c, ret=BYTES))
     fns += [
+        FnSpec("dispatch:Frame:from_bytes"),
+        FnSpec("dispatch:Frame:to_bytes"),
         FnSpec("parse_frame", ret=("obj", "Frame")),
         FnSpec("AshProtocol._stuff_bytes", lean_name="stuff_bytes"),
         FnSpec("AshProtocol._unstuff_bytes", lean_name="unstuff_bytes"),
